@@ -69,11 +69,12 @@ def dbl(t):
     return z3.SeqRef(z3.Z3_mk_seq_replace_all(t.ctx_ref(), t.as_ast(), a0.as_ast(), a1.as_ast()), t.ctx)
 
 
-def undbl(t):
-    """`%%` -> `%` (the empty string is its own image: spelled out because the solvers do not unfold replace_all)"""
+def undbl(t, spell_out_empty=True):
+    """`%%` -> `%`.  spell_out_empty: the empty string is its own image, written as an explicit case because the solvers
+    do not unfold replace_all on a symbolic empty string (needed where the code skips the replacement for an empty text)"""
     a0, a1 = S("%%"), S("%")
     r = z3.SeqRef(z3.Z3_mk_seq_replace_all(t.ctx_ref(), t.as_ast(), a0.as_ast(), a1.as_ast()), t.ctx)
-    return z3.If(z3.Length(t) == 0, t, r)
+    return z3.If(z3.Length(t) == 0, t, r) if spell_out_empty else r
 
 
 def cat(parts):
@@ -727,7 +728,7 @@ class MakeNode(HintVC):
             cases.append(([z3.Not(self.newstyle.t)], old))
         else:
             # no formatting step: only correct when nothing has to be substituted; the text must then be un-doubled
-            old = n_(N.MarkSafeIfAutoescape, expr=self.call_shape(undbl(sing), undbl(plur) if plur is not None else None, []))
+            old = n_(N.MarkSafeIfAutoescape, expr=self.call_shape(undbl(sing, False), undbl(plur) if plur is not None else None, []))
             cases.append(([z3.Not(self.newstyle.t), z3.Not(self.vars_referenced.t)], old))
             cases.append(([z3.Not(self.newstyle.t), self.vars_referenced.t], None))
         out_conds = []
